@@ -352,7 +352,6 @@ func main() {
 	stressMs := flag.Int("stress-ms", 700, "")
 	withCluster := flag.Bool("cluster", true, "run the three-member cluster phase")
 	flag.Parse()
-	thoroughTier = *tier == "thorough"
 
 	R := res.New("C05", *seed, *tier)
 	R.Rule = "one real server with Local TSO enabled holding the allocators of dc-1 and dc-2 (Global requests use the real gRPC SyncMaxTS rounds): " +
